@@ -12,7 +12,7 @@ META["C16"] = {
     },
     "rule": "exhaustive nested enumeration of (total, world) with every rank; a pair is non-trivial when total is not divisible by world (the remainder handling is exercised); distinct = distinct (total, world) pairs",
     "assumptions": [
-        "sub_calls is an inline expression in mpi_*.hpp; the sweep uses a literal copy that part B ties to the code by counting integrand evaluations per rank under the MPI shim",
+        "the share of a rank is taken from the helpers themselves (distance to the next rank's start); sub_calls is an inline expression in mpi_*.hpp and is tied to the helpers by counting integrand evaluations per rank under the MPI shim (part B), without assuming which ranks take the extra call",
         "unbounded integers are outside a bounded enumeration: covered are the stated ranges plus the 2^k boundary lattice up to 2^64-1",
     ],
 }
